@@ -197,11 +197,12 @@ func runStr(c *lib.Ctx, cs caseT) {
 	c.PredChecked()
 	what := func(f string, a ...interface{}) string { return fmt.Sprintf("%s(%q): ", opNames[cs.Op], s) + fmt.Sprintf(f, a...) }
 	if o.panic != "" {
-		sig := "panic/" + opNames[cs.Op] + "/other"
-		if sh := crashShape(s, cs.Op == 2); sh != "" && cs.Op != 0 {
-			sig = "panic/" + opNames[cs.Op] + "/" + sh
+		// C32 states no crash clause: a panic of Unquote / UnquoteBytes on arbitrary input is recorded for the model
+		// (which mirrors it) and belongs to C10; only a panic of Quote breaks the law UNQUOTE(QUOTE(s)) = s
+		c.Count("panic_shape_" + crashShape(s, cs.Op == 2))
+		if cs.Op == 0 {
+			c.PredFail(id, "quote-panics", what("%s", o.panic), cs)
 		}
-		c.PredFail(id, sig, what("%s", o.panic), cs)
 		return
 	}
 	if o.err == 9 {
@@ -228,10 +229,6 @@ func runStr(c *lib.Ctx, cs caseT) {
 			c.PredFail(id, "unquote-of-quote-fails", what("= %q, Unquote of that: %s", o.out, u), cs)
 		} else if utf8.Valid(s) && !bytes.Equal(u.out, want) {
 			c.PredFail(id, "unquote-of-quote-differs", what("= %q, Unquote of that = %q", o.out, u.out), cs)
-		}
-		ub := runOp(2, o.out)
-		if utf8.Valid(s) && (ub.panic != "" || ub.err != 0 || !bytes.Equal(ub.out, s)) {
-			c.PredFail(id, "unquotebytes-of-quote-differs", what("= %q, UnquoteBytes of that: %s", o.out, ub), cs)
 		}
 	}
 }
@@ -279,6 +276,10 @@ func genDoc(r *lib.RNG, depth int) doc {
 				continue
 			}
 			seen[key] = true
+			if r.Chance(1, 4) {
+				o = append(o, kv{key, nil})
+				continue
+			}
 			o = append(o, kv{key, genDoc(r, depth-1)})
 		}
 		return o
@@ -390,8 +391,78 @@ func q1(sql string) (val string, isNull bool, res eng.Result) {
 	return fmt.Sprint(res.Rows[0][0]), false, res
 }
 
+// bigDoc: an array (or object) of distinct tokens whose printed form has a length near one of the given sizes
+func bigDoc(r *lib.RNG) string {
+	target := lib.Pick(r, []int{1024, 3072, 7168, 2048, 4096, 8192}) + r.Range(-48, 48)
+	object := r.Chance(1, 3)
+	var sb strings.Builder
+	if object {
+		sb.WriteString("{")
+	} else {
+		sb.WriteString("[")
+	}
+	for i := 0; ; i++ {
+		var tok string
+		if object {
+			tok = fmt.Sprintf("\"k%05d\": ", i)
+		}
+		switch r.Intn(3) {
+		case 0:
+			tok += fmt.Sprintf("%d", 100000+i*7919)
+		case 1:
+			tok += fmt.Sprintf("\"t%05d-%s\"", i, strings.Repeat(string(rune('a'+i%26)), r.Intn(9)))
+		default:
+			tok += fmt.Sprintf("\"%d\"", i)
+		}
+		if sb.Len()+len(tok)+3 > target && i > 0 {
+			break
+		}
+		if i > 0 {
+			sb.WriteString(", ")
+		}
+		sb.WriteString(tok)
+	}
+	// pad with one last string token so that the total length is exactly the target
+	if pad := target - sb.Len() - 5; pad >= 1 && !object {
+		sb.WriteString(", \"" + strings.Repeat("z", pad) + "\"")
+	} else if pad := target - sb.Len() - 15; pad >= 1 && object {
+		sb.WriteString(", \"k99999\": \"" + strings.Repeat("z", pad) + "\"")
+	}
+	if object {
+		sb.WriteString("}")
+	} else {
+		sb.WriteString("]")
+	}
+	return sb.String()
+}
+
+// nestNull: a document in which a member holding JSON null exists at the given depth; returns the document and the path
+func nestNull(r *lib.RNG, depth int) (doc, string) {
+	var d doc = obj{{lib.Pick(r, keys), genDoc(r, 1)}, {"n", nil}}
+	path := `."n"`
+	for i := 0; i < depth; i++ {
+		if r.Bool() {
+			k := lib.Pick(r, keys)
+			d = obj{{"z", genDoc(r, 0)}, {k, d}}
+			path = `."` + k + `"` + path
+		} else {
+			d = []doc{genDoc(r, 0), d}
+			path = "[1]" + path
+		}
+	}
+	return d, "$" + path
+}
+
 func genSQL(r *lib.RNG) caseT {
 	d := genDoc(r, 3)
+	if r.Chance(1, 8) {
+		return caseT{Kind: "sql", Law: "big-print", Args: []string{bigDoc(r)}}
+	}
+	if r.Chance(1, 6) {
+		nd, np := nestNull(r, r.Intn(4))
+		v := text(genDoc(r, 1))
+		return caseT{Kind: "sql", Law: lib.Pick(r, []string{"remove", "replace", "insert-existing", "extract-set"}), Args: []string{text(nd), np, v}}
+	}
 	switch r.Intn(7) {
 	case 0:
 		var sb strings.Builder
@@ -411,7 +482,21 @@ func genSQL(r *lib.RNG) caseT {
 			return caseT{Kind: "sql", Law: "print-parse", Args: []string{text(d), text(shuffled(r, d))}}
 		}
 		p := ps[r.Intn(len(ps))]
+		if r.Bool() { // prefer members that hold JSON null
+			var nulls []pathT
+			for _, x := range ps {
+				if x.target == nil {
+					nulls = append(nulls, x)
+				}
+			}
+			if len(nulls) > 0 {
+				p = nulls[r.Intn(len(nulls))]
+			}
+		}
 		v := text(genDoc(r, 1))
+		if r.Chance(1, 3) {
+			return caseT{Kind: "sql", Law: lib.Pick(r, []string{"replace", "insert-existing"}), Args: []string{text(d), p.p, v}}
+		}
 		switch r.Intn(3) {
 		case 0:
 			return caseT{Kind: "sql", Law: "extract-set", Args: []string{text(d), p.p, v}}
@@ -554,17 +639,53 @@ func runSQL(c *lib.Ctx, cs caseT) {
 		if o1 && o2 && o3 && ab && bc && !ac {
 			fail("sql/compare-not-transitive", fmt.Sprintf("%s <= %s <= %s but not %s <= %s", a[0], a[1], a[2], a[0], a[2]))
 		}
-	case "extract-set":
-		sql := "SELECT JSON_EXTRACT(JSON_SET(" + sqlLit(a[0]) + ", " + sqlLit(a[1]) + ", CAST(" + sqlLit(a[2]) + " AS JSON)), " + sqlLit(a[1]) + ") = CAST(" + sqlLit(a[2]) + " AS JSON)"
+	case "extract-set", "replace":
+		fn := "JSON_SET"
+		if cs.Law == "replace" {
+			fn = "JSON_REPLACE"
+		}
+		// compared as printed text so that JSON null values are judged too
+		sql := "SELECT CAST(JSON_EXTRACT(" + fn + "(" + sqlLit(a[0]) + ", " + sqlLit(a[1]) + ", CAST(" + sqlLit(a[2]) + " AS JSON)), " + sqlLit(a[1]) + ") AS CHAR)"
 		v, null, res := q1(sql)
 		if bad(sql, res) {
 			return
 		}
-		if a[2] == "null" {
+		sqlv := "SELECT CAST(CAST(" + sqlLit(a[2]) + " AS JSON) AS CHAR)"
+		want, _, res2 := q1(sqlv)
+		if bad(sqlv, res2) {
 			return
 		}
-		if null || v != "1" && v != "true" {
-			fail("sql/extract-after-set-differs", fmt.Sprintf("%s = %q (null=%v)", sql, v, null))
+		if null || v != want {
+			fail("sql/extract-after-"+strings.ToLower(fn[5:])+"-differs", fmt.Sprintf("%s = %q (null=%v), expected %q", sql, v, null, want))
+		}
+	case "insert-existing":
+		// the member exists (whatever it holds, JSON null included): JSON_INSERT must leave the document unchanged
+		sql := "SELECT CAST(JSON_INSERT(" + sqlLit(a[0]) + ", " + sqlLit(a[1]) + ", CAST(" + sqlLit(a[2]) + " AS JSON)) AS CHAR)"
+		v, null, res := q1(sql)
+		if bad(sql, res) {
+			return
+		}
+		sqld := "SELECT CAST(CAST(" + sqlLit(a[0]) + " AS JSON) AS CHAR)"
+		want, _, res2 := q1(sqld)
+		if bad(sqld, res2) {
+			return
+		}
+		if null || v != want {
+			fail("sql/insert-changes-existing-member", fmt.Sprintf("%s = %q (null=%v), expected the unchanged document %q", sql, v, null, want))
+		}
+	case "big-print":
+		// documents around 1K/3K/7K: the generated text is already in printed form (", " and ": " separators, keys ascending)
+		sql := "SELECT CAST(CAST(" + sqlLit(a[0]) + " AS JSON) AS CHAR)"
+		v, null, res := q1(sql)
+		if bad(sql, res) {
+			return
+		}
+		if null || v != a[0] {
+			i := 0
+			for i < len(v) && i < len(a[0]) && v[i] == a[0][i] {
+				i++
+			}
+			fail("sql/large-document-text-round-trip-differs", fmt.Sprintf("document of %d bytes prints as %d bytes; first difference at byte %d", len(a[0]), len(v), i))
 		}
 	case "remove":
 		sql := "SELECT JSON_CONTAINS_PATH(JSON_REMOVE(" + sqlLit(a[0]) + ", " + sqlLit(a[1]) + "), 'one', " + sqlLit(a[1]) + ")"
@@ -631,14 +752,19 @@ func main() {
 			{Kind: "str", Op: 0, S: hx("a\x00\x1f\"\\\n\x7fé\xff")},
 			{Kind: "str", Op: 0, S: hx("")},
 			{Kind: "str", Op: 0, S: hx("😀\xe6\x97")},
-			{Kind: "sql", Law: "raw", Args: []string{`SELECT JSON_UNQUOTE('"\\ud83d\\ude00"')`}}, // known
-			{Kind: "sql", Law: "raw", Args: []string{`SELECT JSON_UNQUOTE('\\u123')`}},            // known
 			{Kind: "sql", Law: "unquote-quote", Args: []string{"a\"b\\c\n'é"}},
 			{Kind: "sql", Law: "print-parse", Args: []string{`{"b": 1, "a": [1, 2, {"c": null}], "aa": "x"}`, `{"aa": "x", "a": [1, 2, {"c": null}], "b": 1}`}},
 			{Kind: "sql", Law: "extract-set", Args: []string{`{"a": [1, 2]}`, `$."a"[1]`, `"v"`}},
 			{Kind: "sql", Law: "remove", Args: []string{`{"a": [1, 2], "b": 3}`, `$."b"`}},
 			{Kind: "sql", Law: "array-append", Args: []string{`{"a": [1, 2]}`, `$."a"`, `3`}},
 			{Kind: "sql", Law: "compare", Args: []string{`1`, `"a"`, `[1]`}},
+			{Kind: "sql", Law: "remove", Args: []string{`{"a": null, "b": 1}`, `$."a"`}},
+			{Kind: "sql", Law: "remove", Args: []string{`{"x": [0, {"a": {"n": null}}]}`, `$."x"[1]."a"."n"`}},
+			{Kind: "sql", Law: "replace", Args: []string{`{"a": null, "b": 1}`, `$."a"`, `7`}},
+			{Kind: "sql", Law: "replace", Args: []string{`[1, {"k": {"n": null}}]`, `$[1]."k"."n"`, `"v"`}},
+			{Kind: "sql", Law: "insert-existing", Args: []string{`{"a": null, "b": 1}`, `$."a"`, `7`}},
+			{Kind: "sql", Law: "insert-existing", Args: []string{`[1, {"k": {"n": null}}]`, `$[1]."k"."n"`, `"v"`}},
+			{Kind: "sql", Law: "extract-set", Args: []string{`{"a": null}`, `$."a"`, `null`}},
 		}
 		for _, cs := range corpus {
 			runCase(c, cs)
